@@ -369,6 +369,7 @@ class Lemma:
         self.refresh_syms()
         eng = Engine(sem.fragment(lines), self.ctx)
         leaves = eng.run(0, (entry or self.entry).copy(), list(cond))
+        self.last_engine = eng; self.last_leaves = leaves
         return eng, leaves
 
     def read_accessor(self, acc, leaf, scratch='r2'):
@@ -416,11 +417,19 @@ class Lemma:
                 continue
             if o.verdict == smt.UNKNOWN:
                 self.add(clause, UNDECIDED, t0, props, {'message': f'{text}: {o.reason}', 'formula': text}); return False
-            bad = (text, o); bad_cond = cond; break
+            bad = (text, o); bad_cond = cond; bad_formula = f; break
         if bad:
             text, o = bad
             d = {'formula': text, 'model': smt.model_to_json(o.model), 'message': f'refuted: {text}'}
-            rep = self.model_replay(bad_cond, o.model)
+            rep = None
+            if clause == 'SAFE' and getattr(self, 'last_engine', None) is not None and not getattr(self, 'no_model_replay', False):
+                try:
+                    from . import cexrun
+                    rep = cexrun.replay_access(self, self.last_engine, bad_formula, bad_cond)
+                except Exception as e:
+                    rep = {'reproduced': None, 'how': f'no concrete replay: {type(e).__name__}: {e}'}
+            if rep is None:
+                rep = self.model_replay(bad_cond, o.model)
             if rep is not None:
                 d['replay'] = rep
             self.add(clause, FAILED, t0, props, d)
